@@ -1,6 +1,7 @@
 package unixsocket
 
 import (
+	"sync"
 	"syscall"
 
 	"github.com/criyle/go-sandbox/zzverif/sym"
@@ -31,4 +32,25 @@ func SelfTestC19() {
 	sym.Output("parse.trunc.einval", err == syscall.EINVAL)
 	_, err = syscall.ParseSocketControlMessage(oob[:20])
 	sym.Output("parse.trunc20.einval", err == syscall.EINVAL)
+	// sync.Map (engine model vs the real one)
+	var m sync.Map
+	m.Store("a", 1)
+	m.Store("b", 2)
+	m.Store("a", 3)
+	v, ok := m.Load("a")
+	sym.Output("syncmap.load", v.(int))
+	sym.Output("syncmap.load.ok", ok)
+	v, ok = m.Load("zz")
+	sym.Output("syncmap.miss.nil", v == nil)
+	sym.Output("syncmap.miss.ok", ok)
+	v, loaded := m.LoadOrStore("c", 9)
+	sym.Output("syncmap.los", v.(int))
+	sym.Output("syncmap.los.loaded", loaded)
+	v, loaded = m.LoadOrStore("c", 10)
+	sym.Output("syncmap.los2", v.(int))
+	sym.Output("syncmap.los2.loaded", loaded)
+	m.Delete("b")
+	n := 0
+	m.Range(func(k, v any) bool { n += v.(int); return true })
+	sym.Output("syncmap.sum", n)
 }
